@@ -96,3 +96,25 @@ impl VectorProblem for BitP {
         self.0
     }
 }
+
+/// 3-city symmetric TSP with fixed distances (1, 2, 3).
+pub struct Tsp3;
+impl Problem for Tsp3 {
+    type Encoding = Vec<usize>;
+    type Objective = SingleObjective;
+    fn name(&self) -> &str {
+        "Tsp3"
+    }
+}
+impl VectorProblem for Tsp3 {
+    type Element = usize;
+    fn dimension(&self) -> usize {
+        3
+    }
+}
+impl mahf::problems::TravellingSalespersonProblem for Tsp3 {
+    fn distance(&self, edge: (usize, usize)) -> f64 {
+        const D: [[f64; 3]; 3] = [[0.0, 1.0, 2.0], [1.0, 0.0, 3.0], [2.0, 3.0, 0.0]];
+        D[edge.0][edge.1]
+    }
+}
